@@ -23,6 +23,7 @@ import LinVerif.Lemmas.C16FlatAgree
 import LinVerif.Lemmas.C16Ident
 import LinVerif.Lemmas.C16RoutePerm
 import LinVerif.Lemmas.C16ProtoConv
+import LinVerif.Lemmas.C16InfluxStream
 import LinVerif.Generated.C16
 
 namespace LinVerif.Props.C16
@@ -1480,5 +1481,302 @@ theorem nan_bucket_value_formats_disagree :
     checkCompound cfNaN = true ∧ FlatRow.compoundErr (some cfNaN) = some .bucketNaN := by decide
 
 end Neg
+
+/-! ## Round 12 — a line-protocol request: every line through ONE shared RowBuilder
+
+`influx.Parse` builds all rows of a request in one pooled `commonseries.RowBuilder`; the line parser
+fills it incrementally and returns at the first problem, so a rejected line leaves its tags / fields
+behind. With `rowBuilder.Reset()` as the first statement of the loop body (regenerated classification
+`influxResetAtLoopTop`) none of that reaches another line. -/
+
+section InfluxRequest
+open LinVerif.InfluxStream LinVerif.FlatRow
+
+/-- the rows a request stores, in order -/
+def storedRows : List LRes → List Stored
+  | [] => []
+  | .stored s :: rest => s :: storedRows rest
+  | _ :: rest => storedRows rest
+
+/-- **no state leak between the lines of a request**: for every request (any number of lines, any mix
+of comment lines, lines rejected at any stage — name, tag section, a tag, field section, a field,
+timestamp, Build — and accepted lines), every limit set, request namespace, enriched tags, every sort,
+every hash and EVERY state of the pooled builder, the request's results are line by line what a builder
+nobody used before gives for that line alone. -/
+theorem influx_request_lines_independent (c : ICfg) (sortK : List Tag → List Tag) (H : String → Nat) :
+    ∀ (lines : List ILine) (b : RB), (parseReq true c sortK H b lines).2 = aloneReq c sortK H lines
+  | [], _ => rfl
+  | ln :: rest, b => by
+    have h := lineStep_state_independent c sortK H b ln
+    simp only [parseReq, aloneReq]
+    rcases hX : lineStep true c sortK H b ln with ⟨b', r⟩
+    rw [hX] at h
+    simp only at h
+    rw [← h]
+    cases r <;> simp [influx_request_lines_independent c sortK H rest b']
+
+/-- two pool states give the same request results -/
+theorem influx_request_independent_of_pool (c : ICfg) (sortK : List Tag → List Tag) (H : String → Nat)
+    (lines : List ILine) (b b' : RB) :
+    (parseReq true c sortK H b lines).2 = (parseReq true c sortK H b' lines).2 := by
+  rw [influx_request_lines_independent, influx_request_lines_independent]
+
+/-- **a rejected line is rejected as a whole**: a line that is not stored when sent alone (comment,
+rejected by the parser or by Build) contributes nothing to the request — the rows stored are those of
+the request without it, whatever it had put into the builder before it was rejected. -/
+theorem influx_rejected_line_leaves_no_trace (c : ICfg) (sortK : List Tag → List Tag) (H : String → Nat)
+    (ln : ILine) (rest : List ILine) (b b' : RB)
+    (hrej : (lineStep true c sortK H RB.fresh ln).2 = .dropped ∨ (lineStep true c sortK H RB.fresh ln).2 = .skipped) :
+    storedRows (parseReq true c sortK H b (ln :: rest)).2 = storedRows (parseReq true c sortK H b' rest).2 := by
+  rw [influx_request_lines_independent, influx_request_lines_independent]
+  rcases hrej with h | h <;> simp [aloneReq, h, storedRows]
+
+/-- an accepted first line is stored as it is alone, and the rest of the request as without it -/
+theorem influx_accepted_line_stored_as_alone (c : ICfg) (sortK : List Tag → List Tag) (H : String → Nat)
+    (ln : ILine) (rest : List ILine) (b b' : RB) (s : Stored)
+    (hacc : (lineStep true c sortK H RB.fresh ln).2 = .stored s) :
+    storedRows (parseReq true c sortK H b (ln :: rest)).2 = s :: storedRows (parseReq true c sortK H b' rest).2 := by
+  rw [influx_request_lines_independent, influx_request_lines_independent]
+  simp [aloneReq, hacc, storedRows]
+
+/-- the code has the placement the theorems are about -/
+theorem influxResetAtLoopTop_expected : Generated.C16.influxResetAtLoopTop = true := by decide
+
+theorem influxParseLoopSteps_expected : Generated.C16.influxParseLoopSteps =
+    ["rowBuilder.Reset()", "comment-continue", "parse-line-or-continue", "enriched-tags-or-fail",
+     "append-built-row-or-continue"] := by decide
+
+/-- `parseLine` follows these builder calls and scanning steps in this order -/
+theorem influxParseLineCalls_expected : Generated.C16.influxParseLineCalls =
+    ["builder.AddNameSpace", "scanMetricName", "builder.AddMetricName", "scanTagLine", "parseTags",
+     "builder.AddTag", "scanFieldLine", "parseFields", "builder.AddSimpleField", "parseTimestamp",
+     "builder.AddTimestamp"] := by decide
+
+/-- … and returns early exactly here (guard, returned value) -/
+theorem influxParseLineRules_expected : Generated.C16.influxParseLineRules = [
+    ("bytes.HasPrefix(content, []byte{'#'})", "accept"),
+    ("err != nil", "accept"),
+    ("limits.EnableMetricNameLengthCheck() && len(metricName) > limits.MaxMetricNameLength", "constants.ErrMetricNameTooLong"),
+    ("err != nil", "err"),
+    ("err != nil", "err"),
+    ("limits.EnableTagsCheck() && len(tags)+numOfEnrichedTags > limits.MaxTagsPerMetric", "constants.ErrTooManyTagKeys"),
+    ("limits.EnableTagNameLengthCheck() && len(tagKey) > limits.MaxTagNameLength", "constants.ErrTagKeyTooLong"),
+    ("limits.EnableTagValueLengthCheck() && len(tagValue) > limits.MaxTagValueLength", "constants.ErrTagValueTooLong"),
+    ("err != nil", "err"),
+    ("err != nil", "err"),
+    ("err != nil && len(fields) == 0", "err"),
+    ("limits.EnableFieldsCheck() && len(fields) > limits.MaxFieldsPerMetric", "constants.ErrTooManyFields"),
+    ("limits.EnableFieldNameLengthCheck() && len(fieldName) > limits.MaxFieldNameLength", "constants.ErrFieldNameTooLong"),
+    ("err != nil", "err"),
+    ("err != nil", "err")] := by decide
+
+/-! non-vacuity and the negation for the other placement -/
+
+def icfg0 : ICfg := ⟨⟨0, 0, 0, 0, 0, 0⟩, "ns", [⟨"region", "sh"⟩], 7⟩
+/-- `cpu,host=a,leak=yes extra_sum=7 12x` — rejected at the timestamp, after tags and fields went in -/
+def lnBad : ILine :=
+  ⟨false, false, "cpu", false, [⟨"host", "a"⟩, ⟨"leak", "yes"⟩], false, [⟨"extra_sum", 2, .num 7⟩], true, none⟩
+/-- `cpu,host=b usage_last=2 1700000001000` -/
+def lnGood : ILine :=
+  ⟨false, false, "cpu", false, [⟨"host", "b"⟩], false, [⟨"usage_last", 1, .num 2⟩], false, some 1700000001000⟩
+def H0 : String → Nat := fun s => s.length
+
+example : storedRows (parseReq true icfg0 (insertionSort (less false)) H0 RB.fresh [lnBad, lnGood]).2 =
+    [⟨"cpu", "ns", 1700000001000, [⟨"host", "b"⟩, ⟨"region", "sh"⟩], [⟨"usage_last", 1, .num 2⟩], none, 16, 5⟩] := by
+  decide
+
+end InfluxRequest
+
+namespace Neg
+open LinVerif.InfluxStream LinVerif.FlatRow
+
+/-- with `Reset` only after an appended row (every `continue` skips it) the tags and fields of a
+rejected line are merged into the next accepted line: another tag set, other fields, another series
+hash — the stored form depends on the other lines of the request -/
+theorem influx_reset_after_append_leaks_rejected_line :
+    storedRows (parseReq false icfg0 (insertionSort (less false)) H0 RB.fresh [lnBad, lnGood]).2 =
+      [⟨"cpu", "ns", 1700000001000, [⟨"host", "b"⟩, ⟨"leak", "yes"⟩, ⟨"region", "sh"⟩],
+        [⟨"extra_sum", 2, .num 7⟩, ⟨"usage_last", 1, .num 2⟩], none, 25, 5⟩] ∧
+    storedRows (parseReq false icfg0 (insertionSort (less false)) H0 RB.fresh [lnBad, lnGood]).2 ≠
+      storedRows (aloneReq icfg0 (insertionSort (less false)) H0 [lnBad, lnGood]) := by
+  decide
+
+end Neg
+
+/-! ## Round 12 — the family scan for calculators whose range may exclude the timestamp it was computed from
+
+`partition` is stated for calculators meeting `CalcSpec`; `CalcSpec.self` (the range computed from a
+timestamp contains it) is what the real month calculator violates on a local day without 00:00
+(recorded finding). `Route.familyGroupsCode` is the iterator as the code runs it for ANY calculator. -/
+
+theorem familyScanF_eq_runs (C : Calc) (hself : ∀ t, contains (C.range t) t = true) :
+    ∀ (n : Nat) (l : List BRow), l.length ≤ n →
+      familyScanF C n l = (runs (inFamilyOf C) l).map (fun g => (C.famTime g.1.row.ts, g.1 :: g.2))
+  | 0, [], _ => by simp [familyScanF, runs]
+  | 0, _ :: _, h => by simp at h
+  | n + 1, [], _ => by simp [familyScanF, runs]
+  | n + 1, a :: rest, h => by
+    have hlen : (rest.dropWhile (inFamilyOf C a)).length ≤ n := by
+      have := (List.dropWhile_sublist (l := rest) (inFamilyOf C a)).length_le
+      simp only [List.length_cons] at h
+      omega
+    rw [familyScanF, runs]
+    simp only [inFamilyOf, hself, if_true, List.map_cons]
+    rw [← familyScanF_eq_runs C hself n _ hlen]
+
+/-- **for a calculator whose ranges contain their own timestamp the code's iterator is `familyGroups`**
+(the model `partition` and the fast/slow-path theorems are about) -/
+theorem family_iterator_code_eq_model (C : Calc) (hself : ∀ t, contains (C.range t) t = true)
+    (sortTs : List BRow → List BRow) (l : List BRow) :
+    familyGroupsCode C sortTs l = familyGroups C sortTs l := by
+  cases l with
+  | nil => rfl
+  | cons a rest =>
+    simp only [familyGroupsCode, familyGroups, familyScan]
+    split
+    · rfl
+    · exact familyScanF_eq_runs C hself _ _ (Nat.le_refl _)
+
+namespace Neg
+
+/-- a month-type calculator in a zone that moves the clock at local midnight, cut down to what matters:
+one family per day, but on day 1 (the day without 00:00) CalcFamilyEndTime returns start - 1 -/
+def noMidnightCalc : Calc where
+  famTime t := t - t % oneDay
+  range t := if t / oneDay = 1 then (t - t % oneDay, t - t % oneDay - 1)
+             else (t - t % oneDay, t - t % oneDay + oneDay - 1)
+
+def rowAt (id : Nat) (ts : Int) : BRow := ⟨id, ⟨"r", "ns", ts, [], [], none, 0, 0⟩, 0, false⟩
+
+/-- one series, a row on day 2 and a row on day 1 (the day whose range is empty): the code's iterator
+hands out NOTHING — both rows are silently not written; a calculator meeting `CalcSpec` would give two
+groups (`partition`) -/
+theorem empty_family_range_rows_not_written :
+    contains (noMidnightCalc.range (oneDay + 5)) (oneDay + 5) = false ∧
+    familyGroupsCode noMidnightCalc (insertionSort lessTs) [rowAt 0 (2 * oneDay + 5), rowAt 1 (oneDay + 5)] = [] := by
+  decide
+
+end Neg
+
+/-! ## Round 12 — the timestamp of a line under the request's precision -/
+
+section InfluxTimestamp
+open LinVerif.InfluxStream
+
+/-- a coarse precision (s, m, h — and ms): the literal `q` stands for `q * unit` milliseconds -/
+theorem influx_timestamp_coarse (k q : Int) (hk : 0 < k) : toMillis k q = some (q * k) := by
+  have h0 : k ≠ 0 := by omega
+  simp [toMillis, h0, hk]
+
+/-- a fine precision (ns, us; `k` units per millisecond): every literal that lies inside millisecond `ts`
+(`ts * k + rem`, `0 ≤ rem < k`) is stored as `ts` — for all non-negative timestamps -/
+theorem influx_timestamp_fine (k ts rem : Int) (hk : 0 < k) (hts : 0 ≤ ts) (h0 : 0 ≤ rem) (h1 : rem < k) :
+    toMillis (-k) (ts * k + rem) = some ts := by
+  have hk0 : -k ≠ 0 := by omega
+  have hneg : ¬ (-k > 0) := by omega
+  have hnn : 0 ≤ ts * k + rem := by
+    have := Int.mul_nonneg hts (Int.le_of_lt hk)
+    omega
+  simp only [toMillis, hk0, hneg, if_false]
+  congr 1
+  rw [Int.neg_one_mul, Int.tdiv_neg, Int.neg_tdiv, Int.neg_neg, Int.tdiv_eq_ediv_of_nonneg hnn]
+  rw [Int.add_comm, Int.add_mul_ediv_right _ _ (by omega : k ≠ 0), Int.ediv_eq_zero_of_lt h0 h1]
+  omega
+
+/-- the table the code has is the table of the model, and every entry is the line protocol's unit -/
+theorem influxPrecisionTable_expected : Generated.C16.influxPrecisionTable = precisionTable := by decide
+
+theorem influxPrecisionSwitchTag_expected :
+    Generated.C16.influxPrecisionSwitchTag = "strings.ToLower(precision)" := by decide
+
+theorem influxParseTimestampSrc_expected : Generated.C16.influxParseTimestampSrc =
+    "if startAt >= len(buf) { return timeutil.Now(), nil } ; f, err := strconv.ParseInt(string(buf[startAt:]), 10, 64) ; if err != nil { return 0, ErrBadTimestamp } ; switch { case multiplier == 0: return timestamp2MilliSeconds(f), nil case multiplier > 0: return f * multiplier, nil default: return -1 * f / multiplier, nil }" := rfl
+
+/-- with the code's table: one second / minute / hour literal, and every nanosecond / microsecond literal
+inside a millisecond, is stored as that millisecond -/
+theorem influx_precision_units :
+    (∀ q : Int, toMillis (multiplierOf precisionTable "ms") q = some q) ∧
+    (∀ q : Int, toMillis (multiplierOf precisionTable "s") q = some (q * 1000)) ∧
+    (∀ q : Int, toMillis (multiplierOf precisionTable "m") q = some (q * 60000)) ∧
+    (∀ q : Int, toMillis (multiplierOf precisionTable "h") q = some (q * 3600000)) ∧
+    (∀ ts rem : Int, 0 ≤ ts → 0 ≤ rem → rem < 1000 → toMillis (multiplierOf precisionTable "us") (ts * 1000 + rem) = some ts) ∧
+    (∀ ts rem : Int, 0 ≤ ts → 0 ≤ rem → rem < 1000000 →
+      toMillis (multiplierOf precisionTable "ns") (ts * 1000000 + rem) = some ts) := by
+  have e1 : multiplierOf precisionTable "ms" = 1 := by decide
+  have e2 : multiplierOf precisionTable "s" = 1000 := by decide
+  have e3 : multiplierOf precisionTable "m" = 60000 := by decide
+  have e4 : multiplierOf precisionTable "h" = 3600000 := by decide
+  have e5 : multiplierOf precisionTable "us" = -1000 := by decide
+  have e6 : multiplierOf precisionTable "ns" = -1000000 := by decide
+  rw [e1, e2, e3, e4, e5, e6]
+  refine ⟨fun q => ?_, fun q => influx_timestamp_coarse 1000 q (by omega), fun q => influx_timestamp_coarse 60000 q (by omega),
+    fun q => influx_timestamp_coarse 3600000 q (by omega),
+    fun ts rem a b c => influx_timestamp_fine 1000 ts rem (by omega) a b c,
+    fun ts rem a b c => influx_timestamp_fine 1000000 ts rem (by omega) a b c⟩
+  have := influx_timestamp_coarse 1 q (by omega)
+  simpa using this
+
+example : toMillis (multiplierOf precisionTable "ns") 1700000001000999999 = some 1700000001000 := by decide
+
+end InfluxTimestamp
+
+/-! ## Round 12 — canonical stored form of an accepted line-protocol line -/
+
+section InfluxCanonical
+open LinVerif.InfluxStream LinVerif.FlatRow
+
+/-- **what an accepted line is stored as** (any position in any request, by `influx_request_lines_independent`):
+no section of it failed; the stored name / namespace are the sanitised measurement / request namespace,
+the fields are the parsed fields in order (reserved names escaped), the tags are RowBuilder's sort +
+keep-last de-duplication of the line's tags followed by the request's tags, the timestamp is the line's
+(the clock when absent or 0), no histogram, tags hash of the stored tags, name hash of the stored
+namespace and name. -/
+theorem influx_line_canonical (c : ICfg) (sortK : List Tag → List Tag) (H : String → Nat) (ln : ILine) (s : Stored)
+    (h : (lineStep true c sortK H RB.fresh ln).2 = .stored s) :
+    ln.comment = false ∧ ln.nameErr = false ∧ ln.tagsErr = false ∧ ln.fieldsErr = false ∧ ln.tsErr = false ∧
+    s.name = sanitizeName ln.name ∧ s.ns = sanitizeName c.reqNs ∧
+    s.fields = ln.fields.map sanF ∧ s.tags = flatDedup sortK (ln.tags ++ c.enriched) ∧
+    s.ts = (if ln.ts.getD c.now = 0 then c.now else ln.ts.getD c.now) ∧ s.compound = none ∧
+    s.hash = H (concatKVs s.tags) ∧ s.nameHash = H (s.ns ++ s.name) := by
+  revert h
+  simp only [lineStep, if_true]
+  by_cases hc : ln.comment = true
+  · simp [hc]
+  · simp only [hc, if_false, Bool.false_eq_true]
+    rcases hP : parseLine c RB.fresh.reset ln with ⟨bx, _ | _⟩
+    · -- the parser returned nil
+      simp only
+      by_cases hn : ln.nameErr = true
+      · -- measurement scan failed: only the namespace is in the builder, Build refuses the empty name
+        have hb : bx = RB.fresh.reset.addNameSpace c.reqNs := by
+          have := congrArg Prod.fst hP
+          simpa [parseLine, hn] using this.symm
+        obtain ⟨e2, e1⟩ := addEnriched_spec c.enriched bx
+        rcases hE : addEnriched bx c.enriched with ⟨ex, _ | _⟩
+        · rw [hE] at e2 e1
+          simp only at e2 e1
+          obtain ⟨st, hst⟩ := e1 e2.symm
+          simp [hst, hb, RB.build, RB.addNameSpace, RB.reset, RB.fresh]
+        · simp
+      · have hn' : ln.nameErr = false := by simpa using hn
+        obtain ⟨a1, a2, a3, sk, sf, hbx⟩ := parseLine_accepts c ln RB.fresh.reset hn' (by rw [hP])
+        rw [hP] at hbx
+        simp only at hbx
+        obtain ⟨e2, e1⟩ := addEnriched_spec c.enriched bx
+        rcases hE : addEnriched bx c.enriched with ⟨ex, _ | _⟩
+        · rw [hE] at e2 e1
+          simp only at e2 e1
+          obtain ⟨st, hst⟩ := e1 e2.symm
+          simp only [hst, hbx, RB.build, RB.reset, RB.fresh, List.nil_append]
+          split_ifs <;> simp_all
+          all_goals (intro hs; subst hs; simp_all)
+        · simp
+    · simp
+
+example : (lineStep true icfg0 (insertionSort (less false)) H0 RB.fresh lnGood).2 =
+    .stored ⟨"cpu", "ns", 1700000001000, [⟨"host", "b"⟩, ⟨"region", "sh"⟩], [⟨"usage_last", 1, .num 2⟩], none, 16, 5⟩ := by
+  decide
+
+end InfluxCanonical
 
 end LinVerif.Props.C16
